@@ -12,7 +12,7 @@ import ast
 
 from ..model import text, AnalysisError, construct
 from ..cfg import cfg_of, guards, atomic_guards, enclosing_stmt, is_within, \
-    parent_block, EXIT
+    parent_block, block_always_leaves, EXIT
 from ..effects import is_tree_loc, STATS_LOCS
 from .. import pat
 
@@ -204,6 +204,70 @@ def _names(expr):
     return {n.id for n in ast.walk(expr) if isinstance(n, ast.Name)}
 
 
+def _sans_metrics(stmts):
+    """The statements with what only talks to Metrics taken out: a
+    structural digest to compare two copies of one piece of code that differ
+    in their bookkeeping only."""
+    out = []
+    for st in stmts:
+        if isinstance(st, ast.Expr) and _is_metrics_call(st.value):
+            continue
+        if isinstance(st, ast.Pass):
+            continue
+        if isinstance(st, ast.If):
+            b, o = _sans_metrics(st.body), _sans_metrics(st.orelse)
+            pure = all(isinstance(x, (ast.Name, ast.BoolOp, ast.UnaryOp, ast.And, ast.Or,
+                                      ast.Not, ast.Load)) for x in ast.walk(st.test))
+            if not b and not o and pure:
+                continue
+            out.append(("if", text(st.test), tuple(b), tuple(o)))
+        elif isinstance(st, (ast.For, ast.While)):
+            head = (text(st.target), text(st.iter)) if isinstance(st, ast.For) \
+                else (text(st.test),)
+            out.append(("loop",) + head + (tuple(_sans_metrics(st.body)),
+                                            tuple(_sans_metrics(st.orelse))))
+        else:
+            out.append(text(st))
+    return out
+
+
+def _neutral_if(f, node):
+    """`if <metrics test>: <copy A>; return` followed by <copy B> (or an
+    if/else of two copies) where A and B are the same statements once the
+    Metrics calls are taken out: whichever way the test goes, the kernel sees
+    the same thing done."""
+    if hasattr(node, "_neutral"):
+        return node._neutral
+    res = False
+    pb = parent_block(node)
+    if pb is not None:
+        blk, idx, parent, field = pb
+        tail = blk[idx + 1:]
+        top = parent is f.node and field == "body"
+
+        def cont(branch):
+            if branch and isinstance(branch[-1], ast.Return):
+                if not top:
+                    return None
+                br = list(branch)
+                if br[-1].value is None:
+                    br.pop()
+                return br
+            if block_always_leaves(branch):
+                return None
+            rest = list(tail)
+            if top and rest and isinstance(rest[-1], ast.Return) and rest[-1].value is None:
+                rest.pop()
+            return list(branch) + rest
+        a, b = cont(node.body), cont(node.orelse)
+        if a is not None and b is not None and (
+                any(isinstance(x, ast.stmt) and not isinstance(x, ast.Pass) for x in node.body)):
+            sa_, sb_ = _sans_metrics(a), _sans_metrics(b)
+            res = sa_ == sb_ and bool(sa_)
+    node._neutral = res
+    return res
+
+
 class Taint:
     def __init__(self, ctx, f):
         self.ctx = ctx
@@ -243,7 +307,14 @@ class Taint:
         return False
 
     def guard_tainted(self, st):
-        return any(self.expr_tainted(t) for t, pol in guards(st))
+        for t, pol in guards(st):
+            if not self.expr_tainted(t):
+                continue
+            owner = getattr(t, "_parent", None)
+            if isinstance(owner, ast.If) and owner.test is t and _neutral_if(self.f, owner):
+                continue        # both ways of the test do the same for the kernel
+            return True
+        return False
 
     def _targets(self, t, out):
         if isinstance(t, ast.Name):
@@ -255,6 +326,92 @@ class Taint:
             self._targets(t.value, out)
         elif isinstance(t, ast.Subscript) and isinstance(t.value, ast.Name):
             out.add(t.value.id)
+
+    def _len_of(self, e, depth=0):
+        """Canonical text of the length of a list-valued expression when the
+        shape of the expression fixes it, else None: `[x] * n`, a
+        comprehension without filter, `X[k:]`, `list(X)`, `range(n)`, a
+        variable all of whose definitions have one such length."""
+        if depth > 4:
+            return None
+        if isinstance(e, ast.BinOp) and isinstance(e.op, ast.Mult):
+            for lst, n_ in ((e.left, e.right), (e.right, e.left)):
+                if isinstance(lst, (ast.List, ast.Tuple)) and len(lst.elts) == 1 and \
+                        not isinstance(lst.elts[0], ast.Starred):
+                    return text(n_).replace(" ", "")
+            return None
+        if isinstance(e, (ast.ListComp, ast.GeneratorExp)):
+            if len(e.generators) == 1 and not e.generators[0].ifs:
+                return self._len_of(e.generators[0].iter, depth + 1)
+            return None
+        if isinstance(e, ast.Call) and isinstance(e.func, ast.Name) and not e.keywords:
+            if e.func.id == "range" and len(e.args) == 1:
+                return text(e.args[0]).replace(" ", "")
+            if e.func.id in ("list", "tuple", "reversed", "enumerate") and len(e.args) == 1:
+                return self._len_of(e.args[0], depth + 1)
+            return None
+        if isinstance(e, ast.Subscript) and isinstance(e.slice, ast.Slice):
+            sl = e.slice
+            if sl.upper is None and sl.step is None and \
+                    isinstance(sl.lower, ast.Constant) and \
+                    isinstance(sl.lower.value, int) and sl.lower.value >= 0:
+                base = self._len_of(e.value, depth + 1)
+                if base is None:
+                    return None
+                # (exact only when the list is at least that long; an
+                # equally sliced partner is then equally long or both empty)
+                return base if sl.lower.value == 0 else "%s-%d" % (base, sl.lower.value)
+            return None
+        if isinstance(e, ast.Name):
+            lens = set()
+            for n in self.f.own_nodes():
+                if isinstance(n, ast.Assign):
+                    for t in n.targets:
+                        if isinstance(t, ast.Name) and t.id == e.id:
+                            lens.add(self._len_of(n.value, depth + 1))
+                        elif any(isinstance(x, ast.Name) and x.id == e.id for x in ast.walk(t)):
+                            lens.add(None)
+                elif isinstance(n, (ast.AugAssign, ast.For)) and any(
+                        isinstance(x, ast.Name) and x.id == e.id for x in ast.walk(n.target)):
+                    lens.add(None)
+                elif isinstance(n, ast.Call) and isinstance(n.func, ast.Attribute) and \
+                        isinstance(n.func.value, ast.Name) and n.func.value.id == e.id and \
+                        n.func.attr in ("append", "pop", "insert", "extend", "clear", "remove"):
+                    lens.add(None)
+            if e.id in self.f.params or len(lens) != 1:
+                return None
+            return lens.pop()
+        if isinstance(e, ast.Attribute):
+            return "len(%s)" % text(e).replace(" ", "")
+        return None
+
+    def _for_targets(self, it, target, new):
+        """Targets of `for target in it` that take a metrics-dependent value.
+        `enumerate` and `zip` are read element-wise when the number of rounds
+        does not depend on metrics state: all zipped sequences have one
+        length, by the shape of their definitions, and that length is built
+        from untainted names."""
+        if isinstance(it, ast.Call) and isinstance(it.func, ast.Name) and not it.keywords:
+            if it.func.id == "enumerate" and len(it.args) == 1 and \
+                    isinstance(target, (ast.Tuple, ast.List)) and len(target.elts) == 2:
+                return self._for_targets(it.args[0], target.elts[1], new)
+            if it.func.id == "zip" and isinstance(target, (ast.Tuple, ast.List)) and \
+                    len(target.elts) == len(it.args) and it.args and \
+                    not any(isinstance(a, ast.Starred) for a in it.args):
+                lens = {self._len_of(a) for a in it.args}
+                if len(lens) == 1 and None not in lens:
+                    ln = lens.pop()
+                    try:
+                        names = _names(ast.parse(ln, mode="eval"))
+                    except SyntaxError:
+                        names = None
+                    if names is not None and not (names & self.t):
+                        for a, t in zip(it.args, target.elts):
+                            if self.expr_tainted(a):
+                                self._targets(t, new)
+                        return
+        if self.expr_tainted(it):
+            self._targets(target, new)
 
     def _same_const_in_else(self, st, name, value):
         """`name = CONST` under a tainted `if` does not taint when the
@@ -303,8 +460,10 @@ class Taint:
                                         continue
                                     new.add(nm)
                 elif isinstance(n, ast.For):
-                    if self.expr_tainted(n.iter) or self.guard_tainted(n):
+                    if self.guard_tainted(n):
                         self._targets(n.target, new)
+                    elif self.expr_tainted(n.iter):
+                        self._for_targets(n.iter, n.target, new)
                 elif isinstance(n, ast.Call) and isinstance(n.func, ast.Attribute) \
                         and isinstance(n.func.value, ast.Name) and \
                         n.func.attr in ("append", "pop", "insert", "extend", "clear"):
@@ -508,6 +667,10 @@ def r1_taint(ctx):
         # (a) every block under a tainted guard is metrics-only
         for n in f.own_nodes():
             if isinstance(n, ast.If) and ta.expr_tainted(n.test):
+                if _neutral_if(f, n):
+                    ctx.ok("C15.R1", f, n, "both ways of the metrics-dependent test "
+                           "run the same statements apart from Metrics calls")
+                    continue
                 for b in n.body:
                     why = _metrics_only(ctx, f, ta, b)
                     if why:
@@ -935,31 +1098,34 @@ def r5_confined(ctx):
 
 def r6_ticks(ctx):
     for name in ("iterRange", "iterRangeShape", "iterRangeShapeRef"):
-        f = ctx.func("core/iterators.py:" + name)
-        ys = pat.yields(f)
-        ctx.require(len(ys) == 1, "C15.R6: %s must have one yield" % name)
-        y = enclosing_stmt(ys[0])
-        loop = [a for a in _anc(y) if isinstance(a, ast.For)]
-        ctx.require(loop, "C15.R6: yield of %s is not in a loop" % name)
-        loop = loop[0]
-        g = cfg_of(f, assert_edges=False)
-
+        f0 = ctx.func("core/iterators.py:" + name)
         cv = rv = None
-        for n_ in f.own_nodes():
+        for n_ in f0.own_nodes():
             if isinstance(n_, ast.Assign) and isinstance(n_.value, ast.Call) and \
                     text(n_.value.func) == "_prep_metrics_inc" and \
                     isinstance(n_.targets[0], ast.Tuple) and len(n_.targets[0].elts) == 2:
                 cv, rv = [text(e) for e in n_.targets[0].elts]
         ctx.require(cv and rv, "C15.R6: %s does not obtain (collecting, rank) from "
                     "_prep_metrics_inc" % name)
+        ctx.require("tick" in f0.all_param_names(), "C15.R6: %s has no tick parameter" % name)
+        # the function as it reads while collecting with tick=True (however the
+        # two modes are told apart: per statement, or by one test around two
+        # copies of the loop)
+        from ..symcase import case_view, names_decider
+        f = case_view(f0, names_decider({cv: True, "tick": True}), "collecting+tick")
+        ys = pat.yields(f)
+        ctx.require(len(ys) == 1, "C15.R6: %s must have one yield (while collecting "
+                    "with tick=True)" % name)
+        y = enclosing_stmt(ys[0])
+        loop = [a for a in _anc(y) if isinstance(a, ast.For)]
+        ctx.require(loop, "C15.R6: yield of %s is not in a loop" % name)
+        loop = loop[0]
+        g = cfg_of(f, assert_edges=False)
 
         def tick_calls(meth):
             out = []
             for c in pat.calls(f, name="Metrics." + meth):
-                gs = {(text(t).replace(" ", ""), pol)
-                      for t, pol in atomic_guards(enclosing_stmt(c))}
-                if (cv, True) in gs and ("tick", True) in gs and \
-                        c.args and text(c.args[0]) == rv:
+                if c.args and text(c.args[0]) == rv:
                     out.append(c)
             return out
         reg = [c for c in tick_calls("registerRank") if not is_within(c, loop)
@@ -972,8 +1138,6 @@ def r6_ticks(ctx):
         if ok:
             # the incIter follows the yield in the same block: once per body
             pb_y, pb_i = parent_block(y), parent_block(enclosing_stmt(inc[0]))
-            inc_if = [a for a in _anc(inc[0]) if isinstance(a, ast.If)][0]
-            pb_i = parent_block(inc_if)
             ok = pb_y is not None and pb_i is not None and pb_y[0] is pb_i[0] and \
                 pb_i[1] > pb_y[1]
         if ok:
@@ -987,6 +1151,19 @@ def r6_ticks(ctx):
                     "traced rank no longer equals the loop bodies executed"
                     % (name, len(reg), len(inc), len(end)),
                     text_="%s ticks" % name)
+        # with tick=False nothing of this is done
+        off = case_view(f0, names_decider({"tick": False}), "tick=False")
+        stray = [c for m_ in ("registerRank", "incIter", "endIter", "addUse")
+                 for c in pat.calls(off, name="Metrics." + m_)
+                 if m_ != "addUse" or pat.kwarg(c, "type_", 3) is None]
+        if stray:
+            ctx.bad("C15.R6", f0, stray[0], "%s: `%s` is also done with tick=False: "
+                    "a walk that asks not to be counted moves the iteration "
+                    "count / the iter trace of the rank" % (name, text(stray[0])),
+                    text_="%s ticks only with tick" % name)
+        else:
+            ctx.ok("C15.R6", f0, f0.node, "nothing is counted with tick=False",
+                   text_="%s ticks only with tick" % name)
         # rows of the default ("iter") trace are what Compute.numIters counts:
         # one row per executed loop body = addUse in the block of the yield
         uses = [c for c in pat.calls(f, name="Metrics.addUse")
